@@ -7,7 +7,7 @@ import tx
 from impl import trees, transform, quiet, clone, tag_uids
 
 ID = "C13"
-MODULE = ['TT.Props.C13', 'TT.Props.Pinned', 'TT.Props.PinnedMore', 'TT.Props.C13More']
+MODULE = ['TT.Props.C13', 'TT.Props.Pinned', 'TT.Props.PinnedMore', 'TT.Props.C13More', 'TT.Props.C13More2']
 RULE = ("random well-formed trees with planted punctuation / paired punctuation (first, last, consecutive, sole child, "
         "punctuation-only constituents, unary nodes over punctuation), optionally after root_attach; the three "
         "re-attachments; relc on/off; non-trivial: some token changed parent")
